@@ -181,7 +181,7 @@ def main(tier):
         run.extra["resolve_space"] = "hosts, mapping subsets = " + (g.tags("COUNTS") or ["?"])[0]
         rnd = random.Random(run.seed)
         confs = []
-        n = 250 if not run.thorough else 3000
+        n = 250 if not run.thorough else 20000
         structures = ["lineWithoutEq-lib", "lineWithoutEq-realm", "lineWithoutEq-domain", "oneLineBlock", "unbalancedOpen", "unbalancedClose"]
         for i in range(n):
             st, bad = "ok", False
